@@ -408,7 +408,8 @@ let abs_weight = weight . abs ( ) ;
 self . total_weight = self . total_weight . add ( abs_weight ) ;
 let num_buckets = self . num_buckets as usize ;
 let mut vx_i1 = 0 ;
-while vx_i1 < self . hash_seeds . len ( ) invariant self . wf ( ) , old ( self ) . wf ( ) , vx_i1 <= self . hash_seeds @ . len ( ) , num_buckets == self . num_buckets , self . same_config ( old ( self ) ) , self . total_weight . val ( ) == old ( self ) . total_weight . val ( ) + iabs ( weight . val ( ) ) , forall | i : int | 0 <= i < old ( self ) . counts @ . len ( ) ==> # [ trigger ] fits ( old ( self ) . counts @ [ i ] , weight ) ,
+#[verifier::loop_isolation(false)]
+while vx_i1 < self . hash_seeds . len ( ) invariant self . wf ( ) , old ( self ) . wf ( ) , vx_i1 <= self . hash_seeds @ . len ( ) , self . same_config ( old ( self ) ) , self . total_weight . val ( ) == old ( self ) . total_weight . val ( ) + iabs ( weight . val ( ) ) , forall | i : int | 0 <= i < old ( self ) . counts @ . len ( ) ==> # [ trigger ] fits ( old ( self ) . counts @ [ i ] , weight ) ,
 /*@C08.update_cells*/ forall | r : int , b : int | 0 <= r < self . num_hashes && 0 <= b < self . num_buckets ==> self . counts @ [ # [ trigger ] cell ( r , b , self . num_buckets as int ) ] . val ( ) == old ( self ) . counts @ [ cell ( r , b , self . num_buckets as int ) ] . val ( ) + ( if r < vx_i1 && b == bucket ( item_key ( item ) , self . hash_seeds @ [ r ] , self . num_buckets ) {
 weight . val ( ) }
 else {
@@ -418,17 +419,18 @@ let row = vx_i1 ;
 let seed = & self . hash_seeds [ vx_i1 ] ;
 let bucket = self . bucket_index ( & item , * seed ) ;
 proof {
-lemma_cell_bound ( row as int , bucket as int , self . num_hashes as int , num_buckets as int ) ;
+lemma_cell_bound ( row as int , bucket as int , self . num_hashes as int , self . num_buckets as int ) ;
+}
+proof {
+let g_i = cell ( row as int , bucket as int , self . num_buckets as int ) ;
+if g_i == row * self . num_buckets + bucket {
+assert ( fits ( old ( self ) . counts @ [ g_i ] , weight ) ) ;
+}
 }
 let index = row * num_buckets + bucket ;
-proof {
-if cell ( row as int , bucket as int , self . num_buckets as int ) == index {
-assert ( fits ( old ( self ) . counts @ [ index as int ] , weight ) ) ;
-}
-}
 self . counts [ index ] = self . counts [ index ] . add ( weight ) ;
 proof {
-lemma_cell_inj ( row as int , bucket as int , self . num_hashes as int , num_buckets as int ) ;
+lemma_cell_inj ( row as int , bucket as int , self . num_hashes as int , self . num_buckets as int ) ;
 }
 vx_i1 += 1 ;
 }
@@ -450,19 +452,20 @@ lemma_push ( h , Ev :: Upd ( item_key ( item ) , weight . val ( ) ) ) ;
 let num_buckets = self . num_buckets as usize ;
 let mut min = T :: MAX ;
 let mut vx_i1 = 0 ;
-while vx_i1 < self . hash_seeds . len ( ) invariant self . wf ( ) , vx_i1 <= self . hash_seeds @ . len ( ) , num_buckets == self . num_buckets ,
+#[verifier::loop_isolation(false)]
+while vx_i1 < self . hash_seeds . len ( ) invariant self . wf ( ) , vx_i1 <= self . hash_seeds @ . len ( ) ,
 /*@C08.estimate_min*/ forall | r : int | 0 <= r < vx_i1 ==> min . val ( ) <= # [ trigger ] self . row_val ( item_key ( item ) , r ) , forall | r : int | 0 <= r < vx_i1 ==> 0 <= # [ trigger ] bucket ( item_key ( item ) , self . hash_seeds @ [ r ] , self . num_buckets ) < self . num_buckets , vx_i1 == 0 ==> min == T :: MAX ,
 /*@C08.estimate_min*/ vx_i1 > 0 ==> exists | r : int | 0 <= r < vx_i1 && min . val ( ) == # [ trigger ] self . row_val ( item_key ( item ) , r ) , decreases self . hash_seeds @ . len ( ) - vx_i1 {
 let row = vx_i1 ;
 let seed = & self . hash_seeds [ vx_i1 ] ;
 let bucket = self . bucket_index ( & item , * seed ) ;
 proof {
-lemma_cell_bound ( row as int , bucket as int , self . num_hashes as int , num_buckets as int ) ;
+lemma_cell_bound ( row as int , bucket as int , self . num_hashes as int , self . num_buckets as int ) ;
 }
 let index = row * num_buckets + bucket ;
 let value = self . counts [ index ] ;
 proof {
-if cell ( row as int , bucket as int , self . num_buckets as int ) == index && value . val ( ) == self . row_val ( item_key ( item ) , row as int ) {
+if cell ( row as int , bucket as int , self . num_buckets as int ) == row * self . num_buckets + bucket && value . val ( ) == self . row_val ( item_key ( item ) , row as int ) {
 }
 }
 if value < min {
@@ -498,8 +501,10 @@ assert! ( self . num_buckets == other . num_buckets ) ;
 assert! ( self . seed == other . seed ) ;
 assert! ( self . counts . len ( ) == other . counts . len ( ) ) ;
 let counts_len = self . counts . len ( ) ;
-for i in 0 .. counts_len invariant self . wf ( ) , other . wf ( ) , self . same_config ( old ( self ) ) , counts_len == self . counts @ . len ( ) , counts_len == other . counts @ . len ( ) , self . total_weight == old ( self ) . total_weight , forall | j : int | 0 <= j < old ( self ) . counts @ . len ( ) ==> # [ trigger ] fits ( old ( self ) . counts @ [ j ] , other . counts @ [ j ] ) ,
-/*@C08.merge_cells*/ forall | j : int | 0 <= j < i ==> # [ trigger ] self . counts @ [ j ] . val ( ) == old ( self ) . counts @ [ j ] . val ( ) + other . counts @ [ j ] . val ( ) , forall | j : int | i <= j < counts_len ==> # [ trigger ] self . counts @ [ j ] == old ( self ) . counts @ [ j ] , {
+let ghost tw0 = self . total_weight ;
+#[verifier::loop_isolation(false)]
+for i in 0 .. counts_len invariant self . wf ( ) , other . wf ( ) , self . same_config ( old ( self ) ) , self . counts @ . len ( ) == old ( self ) . counts @ . len ( ) , other . counts @ . len ( ) == old ( self ) . counts @ . len ( ) , self . total_weight == tw0 , forall | j : int | 0 <= j < old ( self ) . counts @ . len ( ) ==> # [ trigger ] fits ( old ( self ) . counts @ [ j ] , other . counts @ [ j ] ) ,
+/*@C08.merge_cells*/ forall | j : int | 0 <= j < i ==> # [ trigger ] self . counts @ [ j ] . val ( ) == old ( self ) . counts @ [ j ] . val ( ) + other . counts @ [ j ] . val ( ) , forall | j : int | i <= j < self . counts @ . len ( ) ==> # [ trigger ] self . counts @ [ j ] == old ( self ) . counts @ [ j ] , {
 proof {
 assert ( fits ( old ( self ) . counts @ [ i as int ] , other . counts @ [ i as int ] ) ) ;
 }
@@ -528,8 +533,10 @@ impl<T: UnsignedCountMinValue> CountMinSketch<T> {
 /*@C08.halve_cells*/ forall | i : int | 0 <= i < old ( self ) . counts @ . len ( ) ==> # [ trigger ] final ( self ) . counts @ [ i ] . val ( ) == old ( self ) . counts @ [ i ] . val ( ) / 2 ,
 /*@C08.halve_total*/ final ( self ) . total_weight . val ( ) == old ( self ) . total_weight . val ( ) / 2 ,
 /*@C08.halve_model*/ forall | h : Seq < Ev > | # [ trigger ] old ( self ) . models ( h ) ==> final ( self ) . models ( h . push ( Ev :: Halve ) ) , {
+let ghost tw0 = self . total_weight ;
 let mut vx_i1 = 0 ;
-while vx_i1 < self . counts . len ( ) invariant self . wf ( ) , self . same_config ( old ( self ) ) , self . total_weight == old ( self ) . total_weight , vx_i1 <= self . counts @ . len ( ) ,
+#[verifier::loop_isolation(false)]
+while vx_i1 < self . counts . len ( ) invariant self . wf ( ) , self . same_config ( old ( self ) ) , self . total_weight == tw0 , vx_i1 <= self . counts @ . len ( ) ,
 /*@C08.halve_cells*/ forall | j : int | 0 <= j < vx_i1 ==> # [ trigger ] self . counts @ [ j ] . val ( ) == old ( self ) . counts @ [ j ] . val ( ) / 2 , forall | j : int | vx_i1 <= j < self . counts @ . len ( ) ==> # [ trigger ] self . counts @ [ j ] == old ( self ) . counts @ [ j ] , decreases self . counts @ . len ( ) - vx_i1 {
 let c = & mut self . counts [ vx_i1 ] ;
 * c = c . halve ( ) ;
@@ -556,8 +563,10 @@ lemma_cell_bound ( r , b , self . num_hashes as int , self . num_buckets as int 
 /*@C08.decay_total*/ final ( self ) . total_weight . val ( ) == decay_spec ( old ( self ) . total_weight . val ( ) , decay ) ,
 /*@C08.decay_model*/ forall | h : Seq < Ev > | # [ trigger ] old ( self ) . models ( h ) ==> final ( self ) . models ( h . push ( Ev :: Decay ( decay ) ) ) , {
 assert! ( vx_decay_in_range ( decay ) ) ;
+let ghost tw0 = self . total_weight ;
 let mut vx_i1 = 0 ;
-while vx_i1 < self . counts . len ( ) invariant self . wf ( ) , self . same_config ( old ( self ) ) , self . total_weight == old ( self ) . total_weight , vx_i1 <= self . counts @ . len ( ) ,
+#[verifier::loop_isolation(false)]
+while vx_i1 < self . counts . len ( ) invariant self . wf ( ) , self . same_config ( old ( self ) ) , self . total_weight == tw0 , vx_i1 <= self . counts @ . len ( ) ,
 /*@C08.decay_cells*/ forall | j : int | 0 <= j < vx_i1 ==> # [ trigger ] self . counts @ [ j ] . val ( ) == decay_spec ( old ( self ) . counts @ [ j ] . val ( ) , decay ) , forall | j : int | vx_i1 <= j < self . counts @ . len ( ) ==> # [ trigger ] self . counts @ [ j ] == old ( self ) . counts @ [ j ] , decreases self . counts @ . len ( ) - vx_i1 {
 let c = & mut self . counts [ vx_i1 ] ;
 * c = c . decay ( decay ) ;
